@@ -652,6 +652,69 @@ def failed_status(model, info, art):
     return ("contradicted" if ok else "confirmed"), f"success={success} pardoned={pardoned} stored={e!r} cause={getattr(e, '__cause__', None)!r} future exception={out['fut_exc']!r}"
 
 
+def wait_groups(model, info, art):
+    """C12 / _wait: a real RunEngine whose groups A = {a1, a2} and W = {w1} hold pending futures; the environment decisions of the
+    counter-example complete / fail them in that order while RE._wait(Msg('wait', group='A'[, watch=('W',)])) runs"""
+    import asyncio as aio_
+    watch = bool(info.get("watch"))
+    RE = RunEngine({}, context_managers=[])
+    loop = RE.loop
+    order = [b for a, b in (art.get("decisions") or []) if a == "env" and b != "step"]
+    out = {}
+
+    async def go():
+        futs = {n: loop.create_future() for n in ("a1", "a2", "w1")}
+        fac = {n: (lambda f=f: f) for n, f in futs.items()}
+        RE._groups.clear()
+        RE._status_objs.clear()
+        RE._groups["A"] = {fac["a1"], fac["a2"]}
+        RE._groups["W"] = {fac["w1"]}
+        wset = RE._groups["W"]
+        wbefore = set(wset)
+
+        class St:
+            done = True
+        RE._status_objs["A"] = {St()}
+        RE._status_objs["W"] = {St()}
+        kw = {"group": "A"}
+        if watch:
+            kw["watch"] = ("W",)
+        t = loop.create_task(RE._wait(Msg("wait", **kw)))
+        await aio_.sleep(0)
+        for lab in order + ["a1-ok", "a2-ok", "w1-ok"]:
+            n, how = lab.split("-")
+            f = futs.get(n)
+            if f is None or f.done():
+                continue
+            if how == "ok":
+                f.set_result(None)
+            else:
+                f.set_exception(ValueError("failed status"))
+                f.exception()
+            await aio_.sleep(0)
+            await aio_.sleep(0)
+            if t.done():
+                break
+        try:
+            out["ret"] = await aio_.wait_for(t, 5)
+            out["raised"] = None
+        except BaseException as e:   # noqa
+            out["raised"] = e
+        out["W_ok"] = RE._groups.get("W") is wset and set(wset) == wbefore and "W" in RE._status_objs
+        out["A_gone"] = "A" not in RE._groups and "A" not in RE._status_objs
+        out["a_done"] = futs["a1"].done() and futs["a2"].done()
+    aio_.run_coroutine_threadsafe(go(), loop).result(30)
+    tag = art.get("obligation", "").split("#", 1)[-1]
+    bad = []
+    if tag.startswith("frame[waiting on one group leaves every other group") and not out["W_ok"]:
+        bad.append("after the wait on group A the group W is no longer registered with its statuses")
+    if tag.startswith("ensures[returns done only when every status") and out["raised"] is None and not (out["ret"] is True and out["a_done"] and out["A_gone"]):
+        bad.append(f"_wait returned {out.get('ret')!r} with a1/a2 done={out['a_done']} and group A consumed={out['A_gone']}")
+    if bad:
+        return "confirmed", "; ".join(bad)
+    return "contradicted", f"watch={watch} order={order}: W intact={out['W_ok']}, returned={out.get('ret')!r}, raised={out['raised']!r}"
+
+
 if __name__ == "__main__":
     import sys
     art = json.load(open(sys.argv[1]))
